@@ -87,8 +87,9 @@ func (cs *CacheStorage) GetWithoutLock(key []byte, object CacheObject) (interfac
 		fmt.Printf("Error in CacheStorage.Get(): %s\n", err.Error())
 		return nil, true
 	}
-	// add to cache
-	cs.Cache.Add(hex.EncodeToString(key), res)
+	// add to cache; if the cache is full, flush it first: a plain Add would push out an entry
+	// that was never written to the db (evidence recorded since the last flush would be lost)
+	cs.SetWithoutLockAndSealCheck(hex.EncodeToString(key), res)
 	return res, true
 }
 
